@@ -32,6 +32,33 @@ type pExpr struct {
 	args []*pExpr
 }
 
+// c15ViaQuery: expressions that call a user-defined function are evaluated inside a query, (SELECT <expr>): the calls of
+// one expression then belong to one running query (set per case; a worker process runs one case at a time)
+var c15ViaQuery bool
+
+func (e *pExpr) hasCall() bool {
+	if e == nil {
+		return false
+	}
+	if e.k == "call" {
+		return true
+	}
+	for _, x := range e.args {
+		if x.hasCall() {
+			return true
+		}
+	}
+	return e.a.hasCall() || e.b.hasCall()
+}
+
+// Top renders an expression in statement position.
+func (e *pExpr) Top() string {
+	if c15ViaQuery && e.hasCall() {
+		return "(SELECT " + e.SQL() + ")"
+	}
+	return e.SQL()
+}
+
 func (e *pExpr) SQL() string {
 	switch e.k {
 	case "lit":
@@ -77,14 +104,14 @@ func renderStmts(ss []*pStmt, ind string) string {
 func (s *pStmt) SQL(ind string) string {
 	switch s.k {
 	case "var":
-		return ind + "VAR " + s.name + " := " + s.e.SQL() + ";\n"
+		return ind + "VAR " + s.name + " := " + s.e.Top() + ";\n"
 	case "var2":
 		// one statement declaring two variables; the second initial value may refer to the first variable
 		return ind + "VAR " + s.name + " := " + s.e.SQL() + ", " + s.params[0] + " := " + s.cond.SQL() + ";\n"
 	case "assign":
-		return ind + s.name + " := " + s.e.SQL() + ";\n"
+		return ind + s.name + " := " + s.e.Top() + ";\n"
 	case "print":
-		return ind + "PRINT " + s.e.SQL() + ";\n"
+		return ind + "PRINT " + s.e.Top() + ";\n"
 	case "if":
 		if s.asCase {
 			r := ind + "CASE\n" + ind + "  WHEN " + s.cond.SQL() + " THEN\n" + renderStmts(s.body, ind+"    ")
@@ -93,7 +120,7 @@ func (s *pStmt) SQL(ind string) string {
 			}
 			return r + ind + "END CASE;\n"
 		}
-		r := ind + "IF " + s.cond.SQL() + " THEN\n" + renderStmts(s.body, ind+"  ")
+		r := ind + "IF " + s.cond.Top() + " THEN\n" + renderStmts(s.body, ind+"  ")
 		if s.els != nil {
 			r += ind + "ELSE\n" + renderStmts(s.els, ind+"  ")
 		}
@@ -112,7 +139,7 @@ func (s *pStmt) SQL(ind string) string {
 	case "exit":
 		return ind + "EXIT;\n"
 	case "return":
-		return ind + "RETURN " + s.e.SQL() + ";\n"
+		return ind + "RETURN " + s.e.Top() + ";\n"
 	case "dispose":
 		return ind + "DISPOSE " + s.name + ";\n"
 	case "dispfunc":
@@ -688,6 +715,16 @@ func (g *pGen) block(vis []string, declaredHere map[string]bool, depth int, inLo
 			fn := &pStmt{k: "func", name: name, params: []string{"@p", "@q"}, defs: []*pExpr{nil, {k: "lit", n: g.r.Range(1, 3)}}}
 			fv := append([]string{"@p", "@q"}, g.globals...)
 			body := g.block(fv, map[string]bool{"@p": true, "@q": true}, depth+1, false, true, g.r.Range(1, 4))
+			if len(g.funcs) > 0 && g.r.P(45) {
+				// the body declares its own function under the name of the one declared before: inside this invocation that name
+				// means the local one, outside it still means the outer one — also when both are called from one query
+				k := g.r.Range(2, 9)
+				sh := &pStmt{k: "func", name: g.funcs[0], params: []string{"@p", "@q"}, defs: []*pExpr{nil, {k: "lit", n: 1}}}
+				sh.body = []*pStmt{{k: "return", e: &pExpr{k: "bin", op: "*", a: &pExpr{k: "var", name: "@p"}, b: &pExpr{k: "lit", n: k * 100}}}}
+				body = append([]*pStmt{sh, {k: "print", e: &pExpr{k: "call", name: g.funcs[0], args: []*pExpr{{k: "lit", n: g.r.Range(1, 2)}}}}}, body...)
+				g.features["shadowfunc"] = true
+				g.features["localfunc"] = true
+			}
 			// recursion / mutual call guarded by the first parameter
 			callee := name
 			if len(g.funcs) > 0 && g.r.Bool() {
@@ -703,7 +740,7 @@ func (g *pGen) block(vis []string, declaredHere map[string]bool, depth int, inLo
 			out = append(out, fn)
 			g.funcs = append(g.funcs, name)
 			g.features["func"] = true
-		case c == 15 && !inFunc && depth >= 1 && len(g.funcs) > 0 && !declaredHere["fn:"+g.funcs[0]] && g.r.P(60):
+		case c == 15 && depth >= 1 && len(g.funcs) > 0 && !declaredHere["fn:"+g.funcs[0]] && g.r.P(60):
 			// a function of the same name as an outer one, declared, used and disposed inside this block: afterwards the outer one is back
 			name := g.funcs[g.r.Intn(len(g.funcs))]
 			if declaredHere["fn:"+name] {
@@ -777,7 +814,10 @@ func (g *pGen) block(vis []string, declaredHere map[string]bool, depth int, inLo
 					known = true
 				}
 			}
-			if !known && !declaredHere[name] {
+			if (!known || (depth >= 1 && g.r.P(40))) && !declaredHere[name] { // also over an outer temporary table of the same name: it is shadowed, not redeclared
+				if known {
+					g.features["shadowview"] = true
+				}
 				out = append(out, &pStmt{k: "view", name: name, e: &pExpr{k: "lit", n: g.r.Range(1, 9)}})
 				declaredHere[name] = true
 				vis = append(vis, name)
@@ -804,6 +844,10 @@ var c15Count int
 
 func c15Case(w *core.Worker, i int) {
 	r := w.Rng(i, "")
+	c15ViaQuery = i%3 == 1
+	if c15ViaQuery {
+		w.Count("programs_calling_their_functions_from_queries", 1)
+	}
 	g := &pGen{r: r, features: map[string]bool{}, globals: []string{"@g1"}}
 	prog := []*pStmt{{k: "var", name: "@g1", e: &pExpr{k: "lit", n: r.Range(1, 5)}}}
 	prog = append(prog, g.block([]string{"@g1"}, map[string]bool{"@g1": true}, 0, false, false, r.Range(8, 18))...)
@@ -811,6 +855,13 @@ func c15Case(w *core.Worker, i int) {
 	for _, v := range pVars {
 		prog = append(prog, &pStmt{k: "if", cond: &pExpr{k: "lit", n: 0}, body: []*pStmt{{k: "print", e: &pExpr{k: "lit", n: 0}}}})
 		_ = v
+	}
+	if len(g.funcs) == 2 {
+		// both functions in one expression (one query, when expressions are evaluated through queries)
+		two := func(a, b string) *pStmt {
+			return &pStmt{k: "print", e: &pExpr{k: "bin", op: "+", a: &pExpr{k: "call", name: a, args: []*pExpr{{k: "lit", n: r.Range(0, 1)}}}, b: &pExpr{k: "call", name: b, args: []*pExpr{{k: "lit", n: r.Range(0, 1)}}}}}
+		}
+		prog = append(prog, two(g.funcs[0], g.funcs[1]), two(g.funcs[1], g.funcs[0]))
 	}
 	prog = append(prog, &pStmt{k: "print", e: &pExpr{k: "var", name: "@g1"}})
 	text := renderStmts(prog, "")
@@ -907,6 +958,12 @@ func c15Case(w *core.Worker, i int) {
 	}
 	if g.features["shadowfunc"] {
 		w.Count("programs_with_a_shadowing_function", 1)
+	}
+	if g.features["localfunc"] {
+		w.Count("programs_with_a_function_declared_inside_a_function", 1)
+	}
+	if g.features["shadowview"] {
+		w.Count("programs_with_a_shadowing_temporary_table", 1)
 	}
 	if g.features["showcursors"] {
 		w.Count("programs_listing_their_cursors", 1)
